@@ -104,6 +104,25 @@ def mesh3d(poly: np.ndarray, elemType: str, h: float, layers: int, meshSize: flo
     return pts.Mesh_Extrude([], [0, 0, float(h)], [int(layers)], et(elemType), isOrganised=organised)
 
 
+def mesh_curved(rng: np.random.Generator, elemType: str, dim: int, scale: float = 1.0, layers: int = 1):
+    """Rectangle with a circular hole (extruded for dim = 3), all lengths multiplied by `scale`: with elements of order >= 2 the edges on
+    the hole are curved (isoparametric geometry). Returns mesh, (Lx, Ly, h, centre, radius) in scaled units."""
+    from EasyFEA.Geoms import Circle
+
+    Lx, Ly = float(rng.uniform(1.6, 2.4)) * scale, float(rng.uniform(1.2, 1.8)) * scale
+    R = float(rng.uniform(0.25, 0.4)) * scale
+    c = (float(Lx * rng.uniform(0.4, 0.6)), float(Ly * rng.uniform(0.4, 0.6)))
+    ms = float({1: 0.35, 2: 0.5, 3: 0.7, 4: 0.8}[ORDER[elemType]] * scale * (1.4 if dim == 3 else 1.0))
+    pts = Points([(0.0, 0.0), (Lx, 0.0), (Lx, Ly), (0.0, Ly)], ms)
+    hole = Circle(Point(c[0], c[1]), 2 * R, ms, isFilled=False)
+    h = float(rng.uniform(0.4, 0.8)) * scale
+    if dim == 2:
+        mesh = pts.Mesh_2D([hole], et(elemType))
+    else:
+        mesh = pts.Mesh_Extrude([hole], [0, 0, h], [int(layers)], et(elemType))
+    return mesh, (Lx, Ly, h, c, R)
+
+
 def mesh1d(elemType: str, L: float, n: int, p0=(0.0, 0.0, 0.0), direction=(1.0, 0.0, 0.0)) -> Mesh:
     d = np.asarray(direction, float)
     d = d / np.linalg.norm(d)
